@@ -209,10 +209,15 @@ func c07HeaderTerm(a c07Abs) string {
 	for i, s := range a.Sigs {
 		sigs[i] = "CSig " + coqBool(s.Commit) + " " + hxs(s.Addr) + " " + coqBool(s.OkOwn) + " " + coqBool(s.OkTr)
 	}
-	return "(Header " + hxS(a.ChainID) + " " + coqN(a.Height) + " " + c07Z(c07TimeNs(a.Time)) + " " +
+	own, tr := c07VSTerm(a.Vals), c07VSTerm(a.Trusted)
+	pre := ""
+	if own == tr { // bind the shared validator set once
+		pre, own, tr = "let v := "+own+" in ", "v", "v"
+	}
+	return "(" + pre + "Header " + hxS(a.ChainID) + " " + coqN(a.Height) + " " + c07Z(c07TimeNs(a.Time)) + " " +
 		hxs(a.ValsHash) + " " + hxs(a.NextValsHash) + " " + hxs(a.AppHash) + " " + coqBool(a.StructOK) + " " +
 		coqN(a.CommitHeight) + " " + coqBool(a.CommitForHeader) + " " + coqList(sigs) + " " +
-		c07VSTerm(a.Vals) + " " + c07Height(a.TrustedHeight) + " " + c07VSTerm(a.Trusted) + ")"
+		own + " " + c07Height(a.TrustedHeight) + " " + tr + ")"
 }
 
 // ---- state projection ---------------------------------------------------------------------
@@ -458,11 +463,10 @@ func c07Rule(pre c07State, cl *tibctmtypes.ClientState, a c07Abs, now time.Time,
 		}
 	}
 	// store consistency needed by the pruning step
-	pruneOK := true
 	if len(pre.Iter) > 0 && pre.cons(pre.Iter[0]) == nil {
-		pruneOK = false
+		bad("damaged store: earliest iteration key without a consensus state")
 	}
-	v.Complete = len(v.Sound) == 0 && allValid && pruneOK
+	v.Complete = len(v.Sound) == 0 && allValid
 	return v
 }
 
@@ -550,6 +554,13 @@ func (s *c07Scen) step(family string, now time.Time, h *tibctmtypes.Header) bool
 		e.rep.Fail("C07:harness-abstraction", "validator-set abstraction (structure + numeric conditions) disagrees with ValidatorSetFromProto", family)
 	}
 	var keeperOK bool
+	// the combined Coq case: pre-state (identical for both calls), observations of both calls
+	var (
+		preTerm            string
+		dRun, dOK, kOK     bool
+		dPost, dRet, kPost = "None", "None", "None"
+		descs              []c07Desc
+	)
 	for via := 0; via < 2; via++ {
 		ctx := s.ctx.WithBlockTime(now)
 		if via == 0 {
@@ -673,20 +684,22 @@ func (s *c07Scen) step(family string, now time.Time, h *tibctmtypes.Header) bool
 				}
 			}
 		}
-		// ---- case for the model
-		term := ""
+		// ---- observations for the model
 		if !s.noCase {
-			retTerm := "None"
-			if via == 0 && ok && retCons != nil {
-				retTerm = "(Some " + c07ConsTerm(retCons) + ")"
+			preTerm = c07KTerm(pre.Client, pre)
+			postTerm := c07KTerm(postCl, post)
+			if via == 0 {
+				dRun, dOK, dPost = true, ok, postTerm
+				if ok && retCons != nil {
+					dRet = "(Some " + c07ConsTerm(retCons) + ")"
+				}
+			} else {
+				kOK, kPost = ok, postTerm
 			}
-			term = "C07 " + c07Z(c07TimeNs(now)) + " " + coqN(uint64(via)) + " " + c07KTerm(pre.Client, pre) + " " + hterm + " " +
-				coqBool(ok) + " " + c07KTerm(postCl, post) + " " + retTerm
+			descs = append(descs, desc)
 		}
 		if s.noCase {
 			e.rep.Count("oracle-only:" + viaName)
-		} else {
-			e.cs.Add(term, desc)
 		}
 		e.rep.Evaluations++
 		// ---- distribution
@@ -742,6 +755,21 @@ func (s *c07Scen) step(family string, now time.Time, h *tibctmtypes.Header) bool
 			e.rep.Sample(8, desc)
 		}
 	}
+	if !s.noCase {
+		// shared sub-terms are bound once (the post state of a rejected call is the pre state)
+		ref := func(t string) string {
+			if t == preTerm {
+				return "p"
+			}
+			return t
+		}
+		term := "(let p := " + preTerm + " in C07 " + c07Z(c07TimeNs(now)) + " p " + hterm + " " + coqBool(dRun) + " " + coqBool(dOK) + " " +
+			ref(dPost) + " " + dRet + " " + coqBool(kOK) + " " + ref(kPost) + ")"
+		if !dRun {
+			term = "(let p := " + preTerm + " in C07 " + c07Z(c07TimeNs(now)) + " p " + hterm + " false false p None " + coqBool(kOK) + " " + ref(kPost) + ")"
+		}
+		e.cs.Add(term, descs)
+	}
 	return keeperOK
 }
 
@@ -754,7 +782,7 @@ func TestC07(t *testing.T) {
 		"conflicting header, pruning, expired / unknown client); then seeded random histories (mostly valid + a malformed stream). Every input runs through " +
 		"ClientState.CheckHeaderAndUpdateState directly and through Keeper.UpdateClient; a further stream of random histories is judged by the oracle only (no Coq case); " +
 		"non-trivial = distinct (header, time, verdict)"
-	cs := &CaseSet{Prop: "C07", Imports: "Clients.Tm Harness.C07", Mismatch: "c07_mismatches", Shard: 150}
+	cs := &CaseSet{Prop: "C07", Imports: "Clients.Tm Harness.C07", Mismatch: "c07_mismatches", Shard: 100}
 	coord := tibctesting.NewCoordinator(t, 1)
 	chain := coord.GetChain(tibctesting.GetChainID(0))
 	env := &c07Env{t: t, rep: rep, cs: cs, chain: chain, k: chain.App.TIBCKeeper.ClientKeeper, cdc: chain.App.AppCodec()}
